@@ -27,6 +27,8 @@ NAMES_FULL = ["name", "fooBar", "FooBar", "FOO", "foo bar", "foo-bar", "foo.bar"
 NAMES_QUICK = ["fooBar", "FOO", "foo bar", "foo-bar", "foo.bar", "_foo", "1foo", "-", "", "class", "match", "list", "self", "datetime",
                "é", "ﬁ", "Foo", "None"]
 NAMES = NAMES_QUICK
+# spellings of the names the endpoint functions already use for their own arguments / locals
+RESERVED_ARGS = ["client", "Client", "CLIENT", "client-", "$client", "url", "URL", "body", "Body", "kwargs", "_kwargs", "headers", "params", "response"]
 
 
 def _matrix():
@@ -118,7 +120,7 @@ def _build(ch):
     p1 = ch.pick("S0.p1.name", ["second"] + NAMES)
     opid = ch.pick("op.id", ["getThing", None] + NAMES)
     tag = ch.pick("op.tag", [None] + NAMES)
-    pname = ch.pick("param.name", ["arg"] + NAMES)
+    pname = ch.pick("param.name", ["arg"] + NAMES + RESERVED_ARGS)
     ename = ch.pick("E.name", ["Kind"] + NAMES)
     ploc = ch.pick("param.in", ["query", "path", "header", "cookie"])
     shape = ch.pick("refs", ["S0->S1", "none", "S1->S0(forward)", "self", "self-array", "mutual", "allof-parent-first", "allof-child-first",
